@@ -10,11 +10,18 @@ META = {
 }
 
 
+def _mc(c, *a, **k):
+    import os
+    if os.environ.get("VERIF_SKIP_MC"):  # speed-up for mutation testing only: the model does not depend on /repo
+        return None
+    return c.tlc_mc(*a, **k)
+
+
 def run(c):
-    c.tlc_mc("ReqResp", "MCReqResp.cfg")
-    c.tlc_mc("ReqResp", "MCReqResp_canary.cfg", expect=["ExactlyOnceAtQuiescence"])
+    _mc(c, "ReqResp", "MCReqResp.cfg")
+    _mc(c, "ReqResp", "MCReqResp_canary.cfg", expect=["ExactlyOnceAtQuiescence"])
     if not c.quick:
-        c.tlc_mc("ReqResp", "MCReqResp3.cfg", timeout=1000)
+        _mc(c, "ReqResp", "MCReqResp3.cfg", timeout=1000)
     drv = c.build("drv-reqresp")
     if c.replay:
         t = c.rundir / "replay_trace.ndjson"
